@@ -76,7 +76,8 @@ def all_cases(tier):
 
 
 def cases(tier, seed):
-    return select_cases(all_cases(tier), tier, seed, extra_quick=40)
+    # + variables over plain values (each element of the domain exactly once)
+    return select_cases(all_cases(tier), tier, seed, extra_quick=40) + C01.plain_cases(tier)
 
 
 def describe(tier):
